@@ -23,8 +23,8 @@ Section Gens.
   Qed.
 
   (* the inner loop of the NBC generators: the active demes of one level each add their clustering *)
-  Lemma nbc_level c fuel lvl : forall demes_of_level cm s evs,
-    forl_ demes_of_level (gen_NBC_Generator_forl2 nbc_cluster c fuel lvl) cm s evs =
+  Lemma nbc_level c fuel : forall demes_of_level cm s evs,
+    forl_ demes_of_level (gen_NBC_Generator_forl2 nbc_cluster c fuel) cm s evs =
     Some (cm ++ map (fun d => (d, nbc_cluster d)) (filter (fun d => d_active (dnth d (demes (ms s)))) demes_of_level), s, evs).
   Proof.
     induction demes_of_level as [|d r IH]; intros cm s evs; cbn [forl_ filter map]; [now rewrite app_nil_r|].
@@ -73,8 +73,8 @@ Section LocalGen.
     unfold bind. unfold gen_NBCGeneratorWithLocalMethod_forl3 at 1. dunf. unfold just_finished at 1.
     destruct (negb (d_active (dnth d (demes (ms s)))) && _); rewrite IH; [|reflexivity]. unfold cm_add. cbn [map]. now rewrite <- app_assoc.
   Qed.
-  Lemma nbc_level' c fuel lvl : forall demes_of_level cm s evs,
-    forl_ demes_of_level (gen_NBCGeneratorWithLocalMethod_forl2 nbc_cluster c fuel lvl) cm s evs =
+  Lemma nbc_level' c fuel : forall demes_of_level cm s evs,
+    forl_ demes_of_level (gen_NBCGeneratorWithLocalMethod_forl2 nbc_cluster c fuel) cm s evs =
     Some (cm ++ map (fun d => (d, nbc_cluster d)) (filter (fun d => d_active (dnth d (demes (ms s)))) demes_of_level), s, evs).
   Proof.
     induction demes_of_level as [|d r IH]; intros cm s evs; cbn [forl_ filter map]; [now rewrite app_nil_r|].
